@@ -576,8 +576,111 @@ def rule_R16_4(ctx):
     return r
 
 
+def rule_R16_7(ctx):
+    import c10
+    import guards
+    prog = ctx.prog
+    r = RuleResult("R16.7", "nested comparison: two lists/objects are declared "
+                   "unequal without looking at their elements only when their "
+                   "lengths differ",
+                   "any other early `false` (e.g. comparing the key sets "
+                   "first) hides the type error of a shared element whose "
+                   "kinds differ: `{b:1,c:1} == {a:1,b:\"s\"}` must be a "
+                   "type diagnostic, not `false`")
+    h = c10.helpers(ctx)
+    if h is None or h[2]["Eq"] is None:
+        r.anchor_missing("structural comparison helper")
+        return r
+    g = h[2]["Eq"][0]
+    gt = ops.PairTable(prog, g, [((("arg", 1), "*"), VALUE), ((("arg", 2), "*"), VALUE)])
+    loops = g.natural_loops()
+    n = 0
+    for K in ("List", "Object"):
+        ex = gt.exclusive_blocks((K, K))
+        hdrs = [hd for hd in loops if hd in ex]
+        if not hdrs:
+            r.unproven.append("%s arm: no element loop found" % K)
+            continue
+        inloop = set()
+        for hd in hdrs:
+            inloop |= loops[hd]
+        first = min(hdrs, key=lambda b_: len(g.reach_from(b_)), default=None)
+        for bb, i, pl, kd, aops, sp in g.aggregates("std::result::Result", "Ok"):
+            if bb not in ex or bb in inloop or mir.const_val(aops[0]) is not False:
+                continue
+            # an answer `false` given before the element walk: not reachable
+            # from any loop header of this arm
+            if any(bb in g.reach_from(hd) for hd in hdrs):
+                continue      # (the `false` after a missing key etc. inside/after the walk)
+            gd = guards.guard_of(g, bb)
+            if gd is None:
+                n += 1
+                r.fail("%s | kind=%s early false not a length test" % (g.path, K),
+                       "the %s arm answers `false` before comparing any element, "
+                       "and not on a comparison of the two lengths" % K, where=mir.span_loc(sp))
+                continue
+            n += 1
+            _, rel, a, b, _other = gd
+            lens = a[0] == "len" and b[0] == "len"
+            r.inst("%s: %s arm answers false before the walk when %s" % (g.path, K, guards.rel_str(rel, a, b)))
+            if lens and rel == "Ne":
+                r.ok()
+            else:
+                r.fail("%s | kind=%s early false not a length test" % (g.path, K),
+                       "the %s arm of the structural comparison answers "
+                       "`false` before comparing any element on a condition "
+                       "other than `len(lhs) != len(rhs)` (%s): a shared "
+                       "element of different kinds is no longer reported"
+                       % (K, guards.rel_str(rel, a, b)), where=mir.span_loc(sp))
+    r.require_floor("early-false answers before the element walk", n, 2)
+    return r
+
+
+def rule_R16_8(ctx, rule_id="R16.8"):
+    import c14
+    prog = ctx.prog
+    r = RuleResult(rule_id, "a typed context evaluates its expression: in every "
+                   "function that coerces an expression to a kind (raises "
+                   "IncorrectType) no success exit bypasses the expression "
+                   "evaluator",
+                   "a fast path that answers from the syntax (e.g. the text of a "
+                   "string literal, ignoring its interpolation slots) gives a "
+                   "different value than evaluating the expression")
+    graph = prog.call_graph()
+    evs = {g.path for g in c14.expr_evaluators(prog)}
+    reach_ev = {p for p in prog.fns if evs & prog.reachable_from([p], graph)} | evs
+    n = 0
+    for f in prog.hand_fns():
+        if f.is_closure or f.from_expansion or f.path in evs:
+            continue
+        if not any(True for _ in f.aggregates(ERR, "IncorrectType")) and \
+                not any(any(True for _ in g.aggregates(ERR, "IncorrectType")) for g in prog.closures_of(f.path)):
+            continue
+        ptys = f.locals[1:f.arg_count + 1]
+        if not any("ast::RawExpr" in t for t in ptys):
+            continue      # not handed an expression
+        evals = [c for c in f.calls() if not c.is_ptr and c.res in reach_ev]
+        if not evals:
+            continue
+        n += 1
+        rets = f.return_locals()
+        exits = [(bb, sp) for bb, i, pl, kd, ao, sp in f.aggregates("std::result::Result", "Ok")
+                 if pl[0] in rets and not pl[1]]
+        bypass = [(bb, sp) for bb, sp in exits if not any(f.dominates(c.bb, bb) for c in evals)]
+        r.inst("%s: %d success exit(s), %d not behind the evaluation" % (f.path, len(exits), len(bypass)))
+        if not bypass:
+            r.ok()
+        else:
+            r.fail("%s | success exit bypasses evaluation" % f.path,
+                   "%s can answer without evaluating its expression: a value "
+                   "is produced from the syntax of the expression alone" % f.path,
+                   where=mir.span_loc(bypass[0][1]))
+    r.require_floor("coercion helpers (raise IncorrectType, take an expression)", n, 1)
+    return r
+
+
 def run(ctx):
-    rs = [rule_R16_1(ctx), rule_R16_2(ctx), rule_R16_3(ctx), rule_R16_4(ctx)]
+    rs = [rule_R16_1(ctx), rule_R16_2(ctx), rule_R16_3(ctx), rule_R16_4(ctx), rule_R16_7(ctx), rule_R16_8(ctx)]
     # nested positions of ==: an identity shortcut must not accept kinds the
     # structural comparison rejects (two functions)
     import c10
